@@ -53,7 +53,7 @@ class DynamicSGEDecider(SynthesisDecider):
 
     def random_int(self, min_int=-sys.maxsize, max_int=sys.maxsize) -> int:
         v = self.read(int)
-        return v % (max_int - min_int) + min_int
+        return v % (max_int - min_int + 1) + min_int
 
     def random_float(self) -> float:
         max_float = sys.float_info.max
